@@ -27,7 +27,7 @@ COMPONENTS = {"real": ["reb_simulation_integrate_raw, reb_check_exit, reb_run_he
               "simulated": ["events between steps (heartbeat seam: user stop at a chosen boundary)", "call partition (re-entry with the previous call's leftovers)", "wall clock"]}
 ASSUMPTIONS = ["(t0, dt, tmax) triples are input draws (not simulation); the event / re-entry dimension is what the seeded schedule explores",
                "splitting clause only for fixed-step integrators in safe mode with exact_finish_time=0 (C09 allows rounding-level differences when a deferred half step is closed early)"]
-PROBES = ["stop_on_shortened_last_step", "late_escape_event", "late_encounter_event", "late_collision_event", "first_step_is_last", "dt_larger_than_interval", "target_behind", "target_equal", "multi_call", "user_stop_event", "escape_event", "no_particles_event", "adaptive_shrunk_last_step", "backward"]
+PROBES = ["pre_true_escape", "pre_true_encounter", "stop_on_shortened_last_step", "late_escape_event", "late_encounter_event", "late_collision_event", "first_step_is_last", "dt_larger_than_interval", "target_behind", "target_equal", "multi_call", "user_stop_event", "escape_event", "no_particles_event", "adaptive_shrunk_last_step", "backward"]
 
 FIXED = ["whfast", "saba", "leapfrog", "janus", "eos", "sei", "none", "mercurius"]
 ADAPTIVE = ["ias15", "bs", "trace"]
@@ -79,7 +79,13 @@ def generate(rng, tier, index):
         # (MERCURIUS searches for collisions inside its encounter sub-steps and in heliocentric coordinates: "the boundary at which a pair first overlaps" is
         #  not defined by the boundary states alone, so the halting collision is not posed for it)
         late = dict(kind=lt.choice(["escape", "encounter", "collision"] if integ != "mercurius" else ["escape", "encounter"]), horizon=lt.randint(6, 40), exact=lt.choice([0, 1]), pick=lt.randint(0, 1000))
-    return dict(config=cfg, t0=t0, targets=targets, exact=d.choice([0, 1]), events=events, late=late)
+    pre = None
+    pr = rng.derive("pre")
+    if pr.chance(0.15):
+        # an exit condition that is ALREADY true when integrate() is called again after a successful call (the user tightened a threshold between
+        # the calls): boundary 0 of the second call is the first boundary at which it is true, so the call must report it without taking a step
+        pre = dict(kind=pr.choice(["escape", "encounter"]), first=pr.randint(1, 6), exact=pr.choice([0, 1]), exact_first=pr.choice([0, 0, 1]))
+    return dict(config=cfg, t0=t0, targets=targets, exact=d.choice([0, 1]), events=events, late=late, pre=pre)
 
 
 def shrink(case, still_fails, viol=None):
@@ -386,6 +392,50 @@ def execute(case, ctx):
                         integ, late["kind"], D, k_, taken, L_.t, hist[k_][3]), key="status:late:%s:boundary" % late["kind"])
                 elif fixed and struct.pack("<d", abs(L_.dt)) != struct.pack("<d", dt_user):
                     viol("dt", "user step size not restored", "%s: after %s at boundary %d dt is %r (expected %r)" % (integ, want, k_, L_.dt, dt_user), key="dt:restore:after-exit")
+        except (rebound.Escape, rebound.NoParticles, rebound.Encounter, rebound.Collision, rebound.GenericError, RuntimeError):
+            pass
+        rb.hb_reset()
+        L2.verif_hb_stop_at(2**62)
+    # ---- (i) exit condition already true when a follow-up call starts -----------------------------------------------------------------------
+    pre = case.get("pre")
+    if pre and not viols and not nopart and not escape:
+        ctx.op(300)
+        rb.hb_reset()
+        L2.verif_hb_stop_at(2**62)
+        try:
+            with rb.quiet():
+                P_ = mk()
+                sg = 1.0 if (P_.dt > 0 or integ == "trace") else -1.0        # TRACE does not support backward integration (documented TODO in the source)
+                P_.integrate(P_.t + sg * (pre["first"] + 0.5) * dt_user, exact_finish_time=pre["exact_first"])      # ends with SUCCESS
+                raw = rb.particles_raw(P_)
+                Q = [struct.unpack_from("<3d", raw, i * rb.PART.size) for i in range(P_.N - P_.N_var)]
+                far = max([math.sqrt(x * x + y * y + z * z) for (x, y, z) in Q] or [0.0])
+                near = min([math.dist(Q[i], Q[j]) for i in range(len(Q)) for j in range(i)] or [float("inf")])
+                posed = False
+                if pre["kind"] == "escape" and far > 1e-6 and math.isfinite(far):
+                    P_.exit_max_distance = far * (1 - 1e-3)
+                    posed = True
+                elif pre["kind"] == "encounter" and 1e-9 < near < float("inf"):
+                    P_.exit_min_distance = near * (1 + 1e-3)
+                    posed = True
+                if posed:
+                    sd0_, t0_ = int(P_.steps_done), struct.pack("<d", P_.t)
+                    exc_ = None
+                    try:
+                        P_.integrate(P_.t + sg * 4.3 * dt_user, exact_finish_time=pre["exact"])
+                    except (rebound.Escape, rebound.Encounter) as e:
+                        exc_ = type(e).__name__
+                    except (rebound.NoParticles, rebound.Collision, rebound.GenericError, RuntimeError) as e:
+                        exc_ = "other:" + type(e).__name__
+                    want = "Escape" if pre["kind"] == "escape" else "Encounter"
+                    probe("pre_true_%s" % pre["kind"])
+                    taken = int(P_.steps_done) - sd0_
+                    if exc_ != want:
+                        viol("status", "exit condition true at the start of a follow-up integrate() was not reported", "%s: %s already true after a successful call of %d steps, integrate(exact=%d) ended with %s after %d steps" % (
+                            integ, pre["kind"], sd0_, pre["exact"], exc_, taken), key="status:pre:%s:missed" % pre["kind"])
+                    elif taken != 0 or struct.pack("<d", P_.t) != t0_:
+                        viol("status", "exit condition reported at the wrong step boundary", "%s: %s already true at the start of a follow-up integrate() (after a successful call of %d steps) but reported after %d more steps" % (
+                            integ, pre["kind"], sd0_, taken), key="status:pre:%s:boundary" % pre["kind"])
         except (rebound.Escape, rebound.NoParticles, rebound.Encounter, rebound.Collision, rebound.GenericError, RuntimeError):
             pass
         rb.hb_reset()
